@@ -233,8 +233,10 @@ if "C09" in which:
    K a u = the content of the active stream still to come from parser state a over future bytes u (Parser/StreamSpec.v);
    [remaining w] = client bytes not yet delivered by the transport; acct = the conservation record of Async/ConnReads.v. *)
 From FV Require Import %s%s Async.ReadsWTargets Async.ReadsWProofs.
+From FV Require Import Codec.Varint Codec.NV Codec.Bodies Codec.Vars Parser.ReqWire Parser.ReqTargets Parser.AbsStream Parser.StreamSpec Parser.StreamFinal Parser.EnvCanon
+  Async.PeerTargets Async.PeerTargets2 Async.PeerTargets3 Async.PeerTargets4 Async.BodyTargets Async.BodyProofs.
 ''' % (PRE, CR)
-    put("C09", "", [
+    put("C09", "Codec.Varint Codec.NV Codec.Bodies Codec.Vars Parser.ReqWire Parser.ReqTargets Parser.AbsStream Parser.StreamSpec Parser.StreamFinal Parser.EnvCanon Async.PeerTargets Async.PeerTargets2 Async.PeerTargets3 Async.PeerTargets4 Async.PeerProofs4 Async.BodyTargets Async.BodyProofs", [
         ("ONE poll of poll_input, any caller buffer (Some c / fill_buf = None), any transport behaviour: with dl the bytes handed to "
          "the caller, K(before)(remaining) = dl ++ K(after)(remaining'), replies and later streams conserved (acct); by outcome: "
          "Ok(n) with n = |dl| <= c, and Ok(0) for c > 0 only at end-of-stream; errors: a sticky parser error, UnexpectedEof only "
@@ -254,6 +256,15 @@ From FV Require Import %s%s Async.ReadsWTargets Async.ReadsWProofs.
         ("the gate: poll_input opens it only when it went to the parser, returned Ok and the active stream is the role's final "
          "stream; nothing closes it", "poll_input_gate", "C09_gate"),
         ("Request::new opens the gate only for roles whose first stream is the final one", "request_new_gate", "C09_initial_gate"),
+        ("WHOSE bytes: over a whole connection of the one-outstanding client (C07; requests within the documented buffer bound, fault-free "
+         "transport, every buffer size, handler scripts and readiness pattern) handler invocation i is started with request i, the role's first "
+         "input stream selected, nothing delivered yet, and for EVERY input stream of the role the content still to come - the K / F of the "
+         "trace law above, from whose front every read takes its bytes - is exactly that stream's content in the records the client sent for "
+         "request i: nothing of an earlier or later request, nothing missing (run_loop_body = run_loop with a ghost trace: C09_body_trace_is_ghost)",
+         "bodies_in_order", "C09_bodies_in_order", ["bodies_in_order_stmt"]),
+        ("the ghost trace is a pure addition to Conn.run_loop", "run_loop_body_erase", "C09_body_trace_is_ghost", ["run_loop_body_erase_stmt"]),
+        ("non-vacuity: two keep-alive Responder requests with bodies abc / de: the trace has two entries whose Stdin content to come is abc / de",
+         "ex4_body_trace", "C09_bodies_example"),
         ("writeable(): Ok means the gate is open — or the stale case spelled out in the statement (gate closed, final stream "
          "already selected, buffered data, reachable only after a parser error; see DESIGN.md, observation O1)", "do_writeable_gate", "C09_writeable"),
     ], head=head)
